@@ -106,7 +106,9 @@ def segWF (cu : Culture) (used : Nat) (segs : List Seg) : Bool :=
       stepSets s ≠ some .dayOfMonth))) &&
   (!hasAny used F.embeddedTime ||
     (segs.any isTimeSeg && (plainSteps segs).all (fun s => stepSets s ≠ some .hours24 && stepSets s ≠ some .minutes &&
-      stepSets s ≠ some .seconds && stepSets s ≠ some .fraction)))
+      stepSets s ≠ some .seconds && stepSets s ≠ some .fraction))) &&
+  -- with an embedded date no plain step assigns the bucket's calendar either (`_build` excludes the calendar field)
+  (!hasAny used F.embeddedDate || (plainSteps segs).all (fun s => stepSets s ≠ some .calendar))
 
 /-! ### name tables: the decidable conditions of the text-step round-trip theorems (`PyodaProofs/C07Text.lean`)
 
